@@ -722,3 +722,24 @@ Example wrong_shape_regenerated :
   out_eqv (last_result ws_hist ws_call) (fresh ws_call) = true /\
   out_eqv (last_result (ws_hist ++ [ws_call; Remove 1 (10, 0)]) ws_call) (fresh ws_call) = true.
 Proof. repeat split; vm_compute; reflexivity. Qed.
+
+(* ---- a file changes on disk AFTER it was loaded --------------------------------- *)
+(* what was loaded is a private copy: whatever happens to the file afterwards
+   (overwritten in place with garbage, removed, replaced) leaves the memory
+   caches as they were; so calls served from memory stay fresh, and calls that
+   go back to the disk are covered by fault_safe *)
+Lemma disk_fault_keeps_memory : forall s d k c,
+  let s' := fst (step s (Seed d k c)) in
+  bs s' = bs s /\ bs_prm s' = bs_prm s /\ tr s' = tr s /\ tr_prm s' = tr_prm s /\ gdir s' = gdir s.
+Proof. intros; cbn; repeat split. Qed.
+
+Definition ow_call : op := Call 10 0 RNone 0 false (BPath 1).
+Definition ow_small : op := Call 6 0 RNone 0 false (BPath 1).
+Definition ow_hist : list op :=
+  [Seed 1 (10, 0) (FGood (ideal 10 0)); ow_call; Seed 1 (10, 0) (FBad PValue)].
+Example overwritten_after_load_fresh :
+  no_hazard init (ow_hist ++ [ow_call; ow_small; Cleanup true; ow_call]) = true /\
+  out_eqv (last_result ow_hist ow_call) (fresh ow_call) = true /\
+  out_eqv (last_result (ow_hist ++ [ow_call]) ow_small) (fresh ow_small) = true /\
+  out_eqv (last_result (ow_hist ++ [ow_call; ow_small; Cleanup true]) ow_call) (fresh ow_call) = true.
+Proof. repeat split; vm_compute; reflexivity. Qed.
